@@ -261,6 +261,7 @@ func exploreCell(g func() (*spg.Password, error), opt CellOpt, visit func(l *Lea
 		t := tape.New(src)
 		src.t = t
 		t.LogOn = opt.Log
+		t.CloseAfterWord = true
 		if opt.Chunk > 0 {
 			t.ChunkAt, t.Chunks, t.ChunkCycle = 1, []int{opt.Chunk}, true
 		}
